@@ -16,6 +16,7 @@ import Driver.MtHist
 import Driver.BddChk
 import Driver.ParseChk
 import Driver.MetaChk
+import Driver.BddLoadChk
 import Driver.NfaStartChk
 import Driver.LtsUtilChk
 import Driver.GlueChk
@@ -554,6 +555,7 @@ def dispatch (kind : String) (args res : List String) : Except String (Findings 
     let (f, tag) ← BddShareChk.check args res
     if (tag.splitOn "exact=out").length > 1 then pure ([], "util outside-precondition " ++ tag)
     else utilKind "BDD table sharing" (pure (f, tag))
+  | "bddload" => utilKind "Timbuk layer of the BDD encodings" (BddLoadChk.check args res)
   | "cliop" => checkCliOp args res
   | "apisweep" =>
     -- API sweep of C20: nothing functional is judged (a sanitizer report / crash never reaches this point); the tag is
